@@ -85,9 +85,9 @@ type Conn struct {
 	zeroLenReadsLeft int
 }
 
-var ioSync byte
-
-func ioSyncAddr() unsafe.Pointer { return unsafe.Pointer(&ioSync) }
+// The transport passes no happens-before edge from a writer to a reader: a network does not either, and an edge
+// here would hide races between what a sender did before its Write and what the reader goroutine does after the
+// Read that returned the answer.
 
 type simAddr struct{}
 
@@ -155,7 +155,6 @@ func (c *Conn) Read(p []byte) (int, error) {
 	t.req = request{kind: opRead, conn: c, buf: p, n: len(p)}
 	t.call()
 	if t.resp.n > 0 {
-		raceAcquire(ioSyncAddr())
 		// as internal/poll does for the detector: the read wrote p[:n]
 		raceWriteRange(unsafe.Pointer(&p[0]), t.resp.n)
 	}
@@ -171,7 +170,6 @@ func (c *Conn) Write(p []byte) (int, error) {
 	// The bytes are taken when the write is GRANTED, not when it is requested: like write(2), which reads the
 	// caller's buffer when the system call runs. A buffer that another task refills in between (a recycled or
 	// shared buffer) therefore goes out with the other task's bytes, as it can on a real connection.
-	raceReleaseMerge(ioSyncAddr())
 	t.req = request{kind: opWrite, conn: c, buf: p}
 	t.call()
 	// as internal/poll does for the detector: the write read p
@@ -194,9 +192,18 @@ func (c *Conn) Close() error {
 
 func (c *Conn) LocalAddr() net.Addr                { return simAddr{} }
 func (c *Conn) RemoteAddr() net.Addr               { return simAddr{} }
-func (c *Conn) SetDeadline(t time.Time) error      { return nil }
-func (c *Conn) SetReadDeadline(t time.Time) error  { return nil }
-func (c *Conn) SetWriteDeadline(t time.Time) error { return nil }
+
+// Deadlines on the transport are not modelled: a library that starts to set them must not be judged by a
+// simulation in which they never expire.
+func (c *Conn) SetDeadline(t time.Time) error      { return c.noDeadlines() }
+func (c *Conn) SetReadDeadline(t time.Time) error  { return c.noDeadlines() }
+func (c *Conn) SetWriteDeadline(t time.Time) error { return c.noDeadlines() }
+
+//go:norace
+func (c *Conn) noDeadlines() error {
+	c.net.s.machineryFromTask("deadline set on the simulated transport: not modelled")
+	return nil
+}
 
 // ---- scheduler side ----
 
@@ -273,7 +280,6 @@ func (n *Net) grantRead(t *Task) string {
 		c.inbox = c.inbox[k:]
 		c.consumed += k
 		t.resp.n = k
-		raceReleaseMerge(ioSyncAddr())
 		if len(c.inbox) == 0 && c.term == TermEOF && c.termWithData {
 			t.resp.err = io.EOF
 			c.termWithData = false
@@ -344,7 +350,6 @@ func (n *Net) grantWrite(t *Task) string {
 	c.BytesFromClient += len(b)
 	c.Wrote = append(c.Wrote, b)
 	c.WroteAt = append(c.WroteAt, n.s.seq)
-	raceAcquire(ioSyncAddr())
 	if n.Peer != nil && len(b) > 0 {
 		n.Peer.Data(c, b)
 	}
